@@ -47,7 +47,7 @@ def run(tier):
             except OSError:
                 pass
     # sizing constructors and reextent without a value must not write to trivially default-constructible elements
-    pat = [("c08_pattern_d2", consts(2, 2, 2, True, ["ctor_ext", "ctor_iota", "reextent", "reextent_fill", "ctor_copy", "write", "clear", "destroy"]))]
+    pat = [("c08_pattern_d2", consts(2, 2, 2, True, ["ctor_ext", "ctor_iota", "reextent", "reextent_move", "reextent_fill", "ctor_copy", "write", "clear", "destroy"]))]
     for name, c in pat:
         arrays.run_config(rep, "C08", name, c, exe_int, wd, len(c["Slots"]), pattern=True)
     rep.notes["events_validated"] = events
